@@ -58,7 +58,7 @@ def main(argv):
             res = f"{type(ex).__name__}: {ex}"
     elif chk == "class_vs_functional":
         from .parts import C03_generic
-        res = C03_generic._job((d["class"], [(d["cfg"], d["batches"])]))[0]
+        res = C03_generic._job((d["class"], [(d["cfg"], d["batches"], d.get("prior_epoch"))]))[0]
     elif chk == "rebatch_reorder":
         from .parts import C12_generic
         res = C12_generic._job((d["class"], [(d["cfg"], d["samples"], d["seed"])]))[0]
@@ -73,6 +73,17 @@ def main(argv):
         c = _case(d["class"])
         inj, got = C19_acc.inject_merge(c[1], c[2], c[4], c[3], d["state"], d["merged_values"])
         res = f"merged {inj} -> observed {got[0]}, expected {sum(inj)}" if any(g != sum(inj) for g in got) else None
+    elif chk == "fn_vs_model":
+        from .catalogue import entry
+        from .model import run_model, T
+        from .compare import close
+        e = entry(d["function"])
+        mo = run_model([(e.fn_model, [e.cfg_val(d["cfg"]), e.batch_val(d["cfg"], d["batch"])])])[0]
+        try:
+            r = e.fn_val(e.functional(d["cfg"], d["batch"]))
+        except Exception:
+            r = T("err")
+        res = None if (isinstance(mo, T) and mo.tag in ("err", "none") and isinstance(r, T)) else close(mo, r, e.tol)
     elif chk == "history":
         from .catalogue import entry
         from . import history
